@@ -285,7 +285,7 @@ pub fn run(ctx: &Ctx) -> RunResult {
         "library messages are compared through their Debug rendering (the types do not implement PartialEq)".into(),
         "raw values of unknown attributes come from the harness's own TLV walk".into(),
     ];
-    rr.absorb(run_prop(ctx, "options", ctx.pick(60_000, 1_000_000), arb_case, |c, st| check_case(c, st)));
+    rr.absorb(run_prop(ctx, "options", ctx.pick(400_000, 4_000_000), arb_case, |c, st| check_case(c, st)));
     rr
 }
 
